@@ -149,7 +149,9 @@ class PressureControlComponent(BranchWOInternalsComponent):
         f, t = get_lookup(net, "branch", "from_to")[cls.table_name()]
         p_to = branch_results["p_to"][f:t]
         p_from = branch_results["p_from"][f:t]
-        res_table["deltap_bar"].values[:] = p_to - p_from
+        # only pressure controllers that were part of the calculation report results
+        connected = get_lookup(net, "branch", "active_hydraulics")[f:t]
+        res_table["deltap_bar"].values[connected] = (p_to - p_from)[connected]
 
     @classmethod
     def get_component_input(cls):
